@@ -1,5 +1,5 @@
 """C12 frequent items: purge-amount conservation chain, bound algebra, filter pairing, merge bookkeeping, probe displacement."""
-from astu import strip, strip_all, walk, walkp, txt, short, is_this_field, field_name, stmts_of, always_throws, functions_by, local_decls
+from astu import C, ctxt, gt_pair, eq_const, strip, strip_all, walk, walkp, txt, short, is_this_field, field_name, stmts_of, always_throws, functions_by, local_decls
 from vlib.core import ob
 
 SK = "datasketches::frequent_items_sketch"
@@ -105,7 +105,7 @@ def bounds(facts):
             conds = []
             walk(fn["body"], lambda n: conds.append(txt(n["c"], inl)) if n.get("k") == "If" else None)
             key = "frequent_items_sketch::get_estimate:formula"
-            if sorted(rets) == sorted(["(map.get(item)+offset)", "0"]) and conds == ["(map.get(item)>0)"]:
+            if sorted(rets) == sorted(["(map.get(item)+offset)", "0"]) and conds == [C("(map.get(item)>0)")]:
                 out.append(ob("fi.bounds", key, fn["pat"], "discharged", "weight > 0 ? weight + offset : 0", fn["qname"]))
             else:
                 out.append(ob("fi.bounds", key, fn["pat"], "violated", "estimate is %s under %s, expected weight + offset when tracked and 0 otherwise" % (rets, conds), fn["qname"]))
@@ -118,9 +118,9 @@ def bounds(facts):
             got = "?"
             if conds:
                 got = txt(conds[0]["c"], inl)
-                g = got.replace(" ", "")
-                nfn = "((err_type==0)&&((it.second+offset)>threshold))" in g or "((err_type==NO_FALSE_NEGATIVES)&&((it.second+offset)>threshold))" in g
-                nfp = "((err_type==1)&&(it.second>threshold))" in g or "((err_type==NO_FALSE_POSITIVES)&&(it.second>threshold))" in g
+                g = C(got)
+                nfn = any(C(x) in g for x in ("((err_type==0)&&((it.second+offset)>threshold))", "((err_type==NO_FALSE_NEGATIVES)&&((it.second+offset)>threshold))"))
+                nfp = any(C(x) in g for x in ("((err_type==1)&&(it.second>threshold))", "((err_type==NO_FALSE_POSITIVES)&&(it.second>threshold))"))
                 ok = nfn and nfp
             if ok:
                 out.append(ob("fi.filter", key, conds[0]["loc"], "discharged", "NO_FALSE_NEGATIVES <-> upper bound > threshold; NO_FALSE_POSITIVES <-> lower bound > threshold", fn["qname"]))
@@ -131,7 +131,7 @@ def bounds(facts):
             walk(fn["body"], lambda n: lam.append(n) if n.get("k") == "Lambda" else None)
             key = "frequent_items_sketch::get_frequent_items:descending"
             lt = txt(returns_of({"body": lam[0]["body"]})[0]["e"]) if lam and returns_of({"body": lam[0]["body"]}) else "?"
-            if lt.replace(" ", "") == "(a.get_estimate()>b.get_estimate())":
+            if lt.replace(" ", "") == C("(a.get_estimate()>b.get_estimate())"):
                 out.append(ob("fi.filter", key, fn["pat"], "discharged", "sorted by estimate, descending", fn["qname"]))
             else:
                 out.append(ob("fi.filter", key, fn["pat"], "violated", "result ordering comparator is `%s`, not a.get_estimate() > b.get_estimate()" % lt, fn["qname"]))
@@ -198,7 +198,7 @@ def probe_displacement(facts):
             continue
         key = "reverse_purge_hash_map::hash_delete:displacement-counter"
         loops = []
-        walk(fn["body"], lambda n: loops.append(n) if n.get("k") == "While" else None)
+        walk(fn["body"], lambda n: loops.append(n) if n.get("k") in ("While", "For") and n.get("init") is None and n.get("inc") is None else None)
         if not loops:
             out.append(ob("fi.probe", key, fn["pat"], "unrecognised", "no probe loop", fn["qname"]))
             continue
@@ -237,7 +237,7 @@ def single_pass_subtract(facts):
     for pat, fn in sorted(fs.items()):
         if fn["name"] != "subtract_and_keep_positive_only":
             continue
-        loops = [s for s in stmts_of(fn["body"]) if s.get("k") == "For"]
+        loops = [s for s in stmts_of(fn["body"]) if s.get("k") == "For" and any(x.get("k") == "Call" and x.get("cname") == "hash_delete" for x in _nodes(s))]
         if len(loops) < 1:
             out.append(ob("fi.single-pass", "reverse_purge_hash_map::subtract_and_keep_positive_only:loops", fn["pat"], "unrecognised", "scan loops not found", fn["qname"]))
             continue
@@ -254,3 +254,9 @@ def single_pass_subtract(facts):
     if not out:
         out.append(ob("fi.single-pass", "anchor", "", "unrecognised", "subtract_and_keep_positive_only not found", ""))
     return out
+
+
+def _nodes(n):
+    acc = []
+    walk(n, lambda x: acc.append(x))
+    return acc
